@@ -71,8 +71,10 @@ def nonideal_space(tier, seed):
         "mode": ["vac", ("T", -20.0), ("p", 0.5)] if q else ["vac", ("T", -60.0), ("T", -20.0), ("p", 0.5)],
         "prog": ["none", "poly3", "exp", "log3"] if q else ["none", "poly", "exp3", "log3"],
         "curves": [CURVE_CONFIGS["one"], CURVE_CONFIGS["two"]] if q else list(CURVE_CONFIGS.values()),
-        "init_perm": [None, {"values": (2.5e-2, 3.0e-5)}] if q else [None, {"values": (2.5e-2, 3.0e-5)},
-                                                                     {"values": (1.0e-2, 8.0e-5), "units": "GPU"}],
+        # initial permeances may be stated in a different unit per component (first in kg/(m2 h kPa), second in SI)
+        "init_perm": [None, {"values": (2.5e-2, 3.0e-5), "units": ["kg/(m2*h*kPa)", "SI"]}] if q else [
+            None, {"values": (2.5e-2, 3.0e-5)}, {"values": (1.0e-2, 8.0e-5), "units": "GPU"},
+            {"values": (2.5e-2, 3.0e-5), "units": ["kg/(m2*h*kPa)", "SI"]}, {"values": (1.0e-2, 8.0e-5), "units": ["GPU", "kg/(m2*h*kPa)"]}],
         "area": [0.05, 1.0, SLOW_AREA],
         "amount": [0.047, 50.0],
         "dt": core.lat([0.1, 2.0], seed),
